@@ -316,10 +316,14 @@ Fixpoint ws_run (nc nw : nat) (o : wspec) (ops : list hop) (out : list (list Z))
   end.
 
 (* --------------------------------------------------------------- the three hooks *)
+(* which set_enabled_statuses the code in /repo has: false = as found (finding
+   C32-enable-no-notify), true = proposed_fixes/C32-enable-no-notify.diff applied *)
+Definition C32_fx : bool := false.
+
 Definition C32_model_ok (c : C32_case) : bool :=
   match c with
-  | CDirect nc nch ops out => zss_eqb (d_trace false nc nch (d_init nc nch) ops) out
-  | CWait nc nw ops out => zss_eqb (w_trace false nc nw (w_init nc nw) ops) out
+  | CDirect nc nch ops out => zss_eqb (d_trace C32_fx nc nch (d_init nc nch) ops) out
+  | CWait nc nw ops out => zss_eqb (w_trace C32_fx nc nw (w_init nc nw) ops) out
   end.
 
 Definition C32_oracle_ok (c : C32_case) : bool :=
@@ -332,7 +336,7 @@ Definition C32_oracle_ok (c : C32_case) : bool :=
    value true while notifications are registered (finding C32-enable-no-notify) *)
 Definition C32_known (c : C32_case) : N :=
   match c with
-  | CDirect nc nch ops _ => if d_d6_free false (d_init nc nch) ops then 0%N else 1%N
+  | CDirect nc nch ops _ => if d_d6_free C32_fx (d_init nc nch) ops then 0%N else 1%N
   | CWait nc nw ops _ =>
-      if w_d6_free false (w_init nc nw) (h_expand false (w_init nc nw) ops) then 0%N else 1%N
+      if w_d6_free C32_fx (w_init nc nw) (h_expand C32_fx (w_init nc nw) ops) then 0%N else 1%N
   end.
